@@ -55,12 +55,15 @@ type PathGen struct {
 }
 
 func NewPathGen(r *rand.Rand) *PathGen {
-	al := []string{"01", "01", "012", "01ef", "0f"}[r.Intn(5)]
+	al := []string{"01", "01", "012", "01ef", "0f", "0123456789abcdef"}[r.Intn(6)] // the last one gives branches with up to 16 children
 	return &PathGen{R: r, Alphabet: al, MaxLen: 4 + 2*r.Intn(5)}
 }
 
 func (g *PathGen) fresh() string {
 	n := g.R.Intn(g.MaxLen/2+1) * 2
+	if g.R.Intn(60) == 0 {
+		n = 66 + 2*g.R.Intn(7) // a path longer than a 32-byte key in hex (66..78 characters)
+	}
 	b := make([]byte, n)
 	for i := range b {
 		b[i] = g.Alphabet[g.R.Intn(len(g.Alphabet))]
